@@ -4,8 +4,19 @@ use roxmltree::Node;
 use std::fmt::Display;
 use std::str::FromStr;
 
+/// Checks if the node is an element with the given tag name that also belongs to the same
+/// XML namespace as its parent element. Elements from foreign namespaces (E57 extensions)
+/// can have the same local name as E57 elements and must not be confused with them.
+pub fn is_tag(node: &Node, tag_name: &str) -> bool {
+    node.has_tag_name(tag_name)
+        && match node.parent_element() {
+            Some(parent) => parent.tag_name().namespace() == node.tag_name().namespace(),
+            None => true,
+        }
+}
+
 pub fn opt_string(parent_node: &Node, tag_name: &str) -> Result<Option<String>> {
-    if let Some(tag) = parent_node.children().find(|n| n.has_tag_name(tag_name)) {
+    if let Some(tag) = parent_node.children().find(|n| is_tag(n, tag_name)) {
         let expected_type = "String";
         if let Some(found_type) = tag.attribute("type") {
             if found_type != expected_type {
@@ -33,7 +44,7 @@ fn opt_num<T: FromStr + Sync + Send>(
     tag_name: &str,
     expected_type: &str,
 ) -> Result<Option<T>> {
-    if let Some(tag) = parent_node.children().find(|n| n.has_tag_name(tag_name)) {
+    if let Some(tag) = parent_node.children().find(|n| is_tag(n, tag_name)) {
         if let Some(found_type) = tag.attribute("type") {
             if found_type != expected_type {
                 Error::invalid(format!(
@@ -75,7 +86,7 @@ pub fn req_int<T: FromStr + Send + Sync>(parent_node: &Node, tag_name: &str) -> 
 }
 
 pub fn opt_date_time(parent_node: &Node, tag_name: &str) -> Result<Option<DateTime>> {
-    if let Some(tag) = parent_node.children().find(|n| n.has_tag_name(tag_name)) {
+    if let Some(tag) = parent_node.children().find(|n| is_tag(n, tag_name)) {
         let expected_type = "Structure";
         if let Some(found_type) = tag.attribute("type") {
             if found_type != expected_type {
@@ -93,7 +104,7 @@ pub fn opt_date_time(parent_node: &Node, tag_name: &str) -> Result<Option<DateTi
 }
 
 pub fn opt_transform(parent_node: &Node, tag_name: &str) -> Result<Option<Transform>> {
-    let node = parent_node.children().find(|n| n.has_tag_name(tag_name));
+    let node = parent_node.children().find(|n| is_tag(n, tag_name));
     if let Some(node) = node {
         Ok(Some(Transform::from_node(&node)?))
     } else {
